@@ -43,7 +43,7 @@ var WKeys = func() [][]byte {
 	}
 	keys := [][]byte{
 		mk(nil), mk(map[int]byte{63: 1}), mk(map[int]byte{62: 1}), mk(map[int]byte{0: 1}), mk(map[int]byte{1: 1}),
-		mk(map[int]byte{31: 5}), mk(map[int]byte{31: 5, 63: 1}), bytes.Repeat([]byte{0xff}, 32),
+		mk(map[int]byte{31: 5}), mk(map[int]byte{31: 5, 63: 1}), bytes.Repeat([]byte{0xfd}, 32),
 		mk(map[int]byte{0: 1, 1: 2}), mk(map[int]byte{0: 1, 1: 2, 40: 7}),
 	}
 	sort.Slice(keys, func(i, j int) bool { return bytes.Compare(keys[i], keys[j]) < 0 })
